@@ -4,6 +4,7 @@
 mod common;
 mod rng;
 mod c11;
+mod c06;
 
 use std::io::{BufWriter, Write};
 
@@ -23,6 +24,7 @@ fn main() {
             let seed: u64 = args.get(4).and_then(|s| s.parse().ok()).unwrap_or(1);
             match prop {
                 "C11" => c11::gen(tier, seed, &mut out),
+                "C06" => c06::gen(tier, seed, &mut out),
                 _ => {
                     eprintln!("unknown property {}", prop);
                     std::process::exit(2);
@@ -56,6 +58,13 @@ fn replay_one(toks: &[&str]) -> String {
             let fmt: u32 = toks[1].parse().unwrap();
             let cs: Vec<String> = toks[2][1..].split(',').map(|s| s.to_string()).collect();
             c11::observe(fmt, &cs)
+        }
+        "C06" => {
+            let scratch = common::scratch_root().join("c06r");
+            std::fs::create_dir_all(&scratch).unwrap();
+            let r = c06::observe(&toks[1..], &scratch);
+            common::rm_rf(&scratch);
+            r
         }
         other => format!("unknown-model {}", other),
     }
